@@ -18,16 +18,25 @@ def find_sig(src, name):
     i = m.end()
     depth = 0
     j = i
+    lets = 0
     while j < len(src):
         c = src[j]
+        if src.startswith("--", j):
+            j = src.find("\n", j)
+            continue
         if c in "([{⟨":
             depth += 1
         elif c in ")]}⟩":
             depth -= 1
+        elif depth == 0 and re.match(r"\blet\b", src[j:j + 4]) and (j == 0 or not src[j - 1].isalnum()):
+            lets += 1
         elif depth == 0 and src.startswith(":=", j):
-            break
+            if lets:
+                lets -= 1
+            else:
+                break
         j += 1
-    sig = src[i:j].rstrip()
+    sig = re.sub(r"--[^\n]*", "", src[i:j]).rstrip()
     # docstring directly above
     doc = ""
     k = src.rfind("/--", 0, m.start())
